@@ -6,17 +6,38 @@
 From Ferrous Require Import Base.Bytes Model.Resp Model.Types Model.Server Model.RunBase.
 Open Scope Z_scope.
 
+(** replies inside an EXEC array are canonicalised by the queued command's name *)
+Fixpoint canon_zip (q : list (list frame)) (l : list frame) : list frame :=
+  match q, l with
+  | parts :: q', x :: l' => canon_reply (req_name (FArray parts)) x :: canon_zip q' l'
+  | _, _ => l
+  end.
+Definition canon_exec (s : server) (c : Z) (name : bytes) (r : frame) : frame :=
+  if beq name (bs "EXEC") then
+    match r, zlookup c (s_conns s) with
+    | FArray l, Some cn => if len l =? len (c_queue cn) then canon_reply name (FArray (canon_zip (c_queue cn) l))
+                           else canon_reply name r
+    | _, _ => canon_reply name r
+    end
+  else canon_reply name r.
+
 Definition srv_op (s : server) (op : list tok) : list tok * server :=
   match op with
   | TB name :: rest =>
-      if beq name (bs "CONN") then
+      if beq name (bs "SERVER") then
+        (* [TB "SERVER"; TB password ("" = none)]: (re)start with this configuration *)
         match rest with
-        | TI c :: _ => ([TI 1], set_conn s c new_conn)
+        | TB pw :: _ => ([], init_server (match pw with [] => None | _ => Some pw end))
+        | _ => ([TB (bs "BADOP")], s)
+        end
+      else if beq name (bs "CONN") then
+        match rest with
+        | TI c :: _ => ([TI 1], connect s c)
         | _ => ([TB (bs "BADOP")], s)
         end
       else if beq name (bs "CLOSE") then
         match rest with
-        | TI c :: _ => ([], {| s_dbs := s_dbs s; s_conns := zremove c (s_conns s) |})
+        | TI c :: _ => ([], del_conn s c)
         | _ => ([TB (bs "BADOP")], s)
         end
       else if beq name (bs "SLEEP") then ([], s)
@@ -27,8 +48,13 @@ Definition srv_op (s : server) (op : list tok) : list tok * server :=
             | Some (req, ft') =>
                 let oracle := match dec_frame (S (length ft')) ft' with
                               | Some (o, _) => Some o | None => None end in
-                match process_frame t s c req oracle with
-                | (r, s') => (enc_frame (canon_reply (req_name req) r), s')
+                match zlookup c (s_conns s) with
+                | None => ([TB (bs "CLOSED")], s)
+                | Some _ =>
+                    match process_frame t s c req oracle with
+                    | (r, s') => (enc_frame (canon_exec s c (req_name req) r),
+                                  if is_quit req then del_conn s' c else s')
+                    end
                 end
             | None => ([TB (bs "BADFRAME")], s)
             end
@@ -43,4 +69,4 @@ Fixpoint srv_ops (s : server) (ops : list (list tok)) : list (list tok) :=
   | [] => []
   | op :: r => match srv_op s op with (o, s') => o :: srv_ops s' r end
   end.
-Definition run_srv (ops : list (list tok)) : list (list tok) := srv_ops init_server ops.
+Definition run_srv (ops : list (list tok)) : list (list tok) := srv_ops (init_server None) ops.
